@@ -123,7 +123,7 @@ the history and the model's own events has no C03 entry. -/
 theorem spec_liveness_clause_passes_on_model (cfg : Cfg) (ok : CfgOK cfg) (hfuel : cfg.fuel = 0) (hperm : OrdPerm cfg)
     (hmt : cfg.mtClosed ≠ cfg.allTypes) (rs : List Round) (hwf : RoundsWF rs) :
     (Spec.runSpec cfg rs (Pyrtma.Drv.Manager.modelRun cfg rs).1 none).errs.filter (·.1 == "C03") = [] :=
-  spec_passes_on_model ok hfuel hperm hmt rs hwf "C03" (by simp [proven]) (fun h => absurd h (by decide))
+  spec_passes_on_model ok hfuel hperm hmt rs hwf "C03" (by simp [provenCore]) (fun h => absurd h (by decide))
 
 /-- a history with a frame that is never read: connection 1 dies on the header of its first frame, its second frame of
     the same round stays unread — and the Spec agrees that it was not pending any more -/
